@@ -94,9 +94,10 @@ fn exact_case(cfg: &Cfg, grp: &str, case: u64, rng: &mut Rng, rep: &mut Report, 
             for api in API_CT {
                 if HANG_SEEN.load(Ordering::SeqCst) { return; }
                 let (k2, ct, eval_api) = (kit.clone(), src_el.ct.clone(), api);
+                let dd = dirty(&kit);
                 let out = watchdog(deadline(cfg), move || match eval_api {
                     "inplace" => { let mut x = ct.clone(); k2.eval.mod_switch_to_inplace(&mut x, &tgt_id); x }
-                    "dest" => { let mut d = dirty(&k2); k2.eval.mod_switch_to(&ct, &tgt_id, &mut d); d }
+                    "dest" => { let mut d = dd; k2.eval.mod_switch_to(&ct, &tgt_id, &mut d); d }
                     _ => k2.eval.mod_switch_to_new(&ct, &tgt_id),
                 });
                 let cls = format!("{}|size={}|{}", spec.scheme_name(), size, if tgt > src { "down" } else if tgt == src { "same" } else { "up" });
@@ -137,9 +138,10 @@ fn exact_case(cfg: &Cfg, grp: &str, case: u64, rng: &mut Rng, rep: &mut Report, 
                 for api in API_CT {
                     if HANG_SEEN.load(Ordering::SeqCst) { return; }
                     let (k2, ct) = (kit.clone(), src_el.ct.clone());
+                    let dd = dirty(&kit);
                     let out = watchdog(deadline(cfg), move || match api {
                         "inplace" => { let mut x = ct.clone(); k2.eval.mod_switch_to_next_inplace(&mut x); x }
-                        "dest" => { let mut d = dirty(&k2); k2.eval.mod_switch_to_next(&ct, &mut d); d }
+                        "dest" => { let mut d = dd; k2.eval.mod_switch_to_next(&ct, &mut d); d }
                         _ => k2.eval.mod_switch_to_next_new(&ct),
                     });
                     let last = src + 1 == nl;
@@ -156,9 +158,10 @@ fn exact_case(cfg: &Cfg, grp: &str, case: u64, rng: &mut Rng, rep: &mut Report, 
                     }
                     // rescale outside CKKS must be refused
                     let (k2, ct) = (kit.clone(), src_el.ct.clone());
+                    let dd = dirty(&kit);
                     let out = watchdog(deadline(cfg), move || match api {
                         "inplace" => { let mut x = ct.clone(); k2.eval.rescale_to_next_inplace(&mut x); x }
-                        "dest" => { let mut d = dirty(&k2); k2.eval.rescale_to(&ct, k2.ctx.last_parms_id(), &mut d); d }
+                        "dest" => { let mut d = dd; k2.eval.rescale_to(&ct, k2.ctx.last_parms_id(), &mut d); d }
                         _ => k2.eval.rescale_to_next_new(&ct),
                     });
                     rep.count("pairs", &format!("{}|rescale_outside_ckks_{}", spec.scheme_name(), api));
@@ -265,12 +268,13 @@ fn ckks_case(cfg: &Cfg, grp: &str, case: u64, rng: &mut Rng, rep: &mut Report, l
                     if HANG_SEEN.load(Ordering::SeqCst) { return; }
                     let (k2, c2) = (kit.clone(), src_ct.clone());
                     let md = mode;
+                    let dd = dirty(&kit);
                     let out = watchdog(deadline(cfg), move || match (md, api) {
                         ("rescale", "inplace") => { let mut x = c2.clone(); k2.eval.rescale_to_inplace(&mut x, &tgt_id); x }
-                        ("rescale", "dest") => { let mut d = dirty(&k2); k2.eval.rescale_to(&c2, &tgt_id, &mut d); d }
+                        ("rescale", "dest") => { let mut d = dd; k2.eval.rescale_to(&c2, &tgt_id, &mut d); d }
                         ("rescale", _) => k2.eval.rescale_to_new(&c2, &tgt_id),
                         (_, "inplace") => { let mut x = c2.clone(); k2.eval.mod_switch_to_inplace(&mut x, &tgt_id); x }
-                        (_, "dest") => { let mut d = dirty(&k2); k2.eval.mod_switch_to(&c2, &tgt_id, &mut d); d }
+                        (_, "dest") => { let mut d = dd; k2.eval.mod_switch_to(&c2, &tgt_id, &mut d); d }
                         _ => k2.eval.mod_switch_to_new(&c2, &tgt_id),
                     });
                     let opn = format!("{}_to_{}", mode, api);
